@@ -58,6 +58,8 @@ type lockCfg struct {
 	Cons        func(*cmttypes.ConsensusParams)
 	Step        time.Duration
 	JumpTime    bool // occasional large block-time steps
+	TargetPunished bool // lock/unlock requests prefer jailed and tombstoned validators
+	EvidenceAges   bool // evidence height and time ages are drawn independently around the limits
 	Protect0    bool // validator 0 (the node's own) is never punished or pushed below a threshold
 }
 
@@ -206,6 +208,17 @@ func newLockHist(c *vc.Ctx, cfg lockCfg, idx int) (*lockHist, error) {
 func (h *lockHist) close() { h.ch.Close() }
 
 func (h *lockHist) pickVal(createdOnly bool) int {
+	if h.cfg.TargetPunished && h.r.Intn(2) == 0 {
+		var cand []int
+		for i, v := range h.vals {
+			if pv := h.post.Validator(v.Key.Cons); pv != nil && (pv.Status == lockingtypes.Downgrade || pv.Status == lockingtypes.Tombstoned) {
+				cand = append(cand, i)
+			}
+		}
+		if len(cand) > 0 {
+			return cand[h.r.Intn(len(cand))]
+		}
+	}
 	for try := 0; try < 20; try++ {
 		i := h.r.Intn(len(h.vals))
 		if !createdOnly || h.vals[i].Created {
@@ -343,6 +356,14 @@ func (h *lockHist) gen() *blockOps {
 			o.Desc = append(o.Desc, fmt.Sprintf("lock v%d %s %s", vi, denomOf(tok), amt))
 		}
 	}
+	thresholdChanged := map[common.Address]bool{}
+	if roll(w.Threshold) {
+		tok := h.tokens[h.r.Intn(len(h.tokens))]
+		th := []*big.Int{big.NewInt(0), big.NewInt(1), pow10(18), new(big.Int).Mul(pow10(18), big.NewInt(5)), new(big.Int).Mul(pow10(18), big.NewInt(30))}[h.r.Intn(5)]
+		o.Reqs.Locking.UpdateThresholds = append(o.Reqs.Locking.UpdateThresholds, &goattypes.UpdateTokenThresholdRequest{Token: tok, Threshold: th})
+		o.Desc = append(o.Desc, fmt.Sprintf("threshold %s=%s", denomOf(tok), th))
+		thresholdChanged[tok] = true
+	}
 	pendingUnl := map[string]*big.Int{}
 	if roll(w.Unlock) {
 		n := 1 + h.r.Intn(3)
@@ -360,7 +381,7 @@ func (h *lockHist) gen() *blockOps {
 				pendingUnl[key] = new(big.Int)
 			}
 			amt := h.unlockAmount(vi, tok, pendingUnl[key])
-			if amt == nil {
+			if amt == nil || (h.cfg.Protect0 && vi == 0 && thresholdChanged[tok]) {
 				continue
 			}
 			if n > 10 && !(h.cfg.Protect0 && vi == 0) {
@@ -409,12 +430,6 @@ func (h *lockHist) gen() *blockOps {
 		o.Reqs.Locking.UpdateWeights = append(o.Reqs.Locking.UpdateWeights, &goattypes.UpdateTokenWeightRequest{Token: tok, Weight: wt})
 		o.Desc = append(o.Desc, fmt.Sprintf("weight %s=%d", denomOf(tok), wt))
 	}
-	if roll(w.Threshold) {
-		tok := h.tokens[h.r.Intn(len(h.tokens))]
-		th := []*big.Int{big.NewInt(0), big.NewInt(1), pow10(18), new(big.Int).Mul(pow10(18), big.NewInt(5)), new(big.Int).Mul(pow10(18), big.NewInt(30))}[h.r.Intn(5)]
-		o.Reqs.Locking.UpdateThresholds = append(o.Reqs.Locking.UpdateThresholds, &goattypes.UpdateTokenThresholdRequest{Token: tok, Threshold: th})
-		o.Desc = append(o.Desc, fmt.Sprintf("threshold %s=%s", denomOf(tok), th))
-	}
 	// gas revenue
 	o.gas = []*big.Int{big.NewInt(0), big.NewInt(1), big.NewInt(7), pow10(9), new(big.Int).Add(pow10(18), big.NewInt(3)), new(big.Int).Mul(pow10(18), big.NewInt(6))}[h.r.Intn(6)]
 	o.Reqs.Gas = o.gas
@@ -441,6 +456,9 @@ func (h *lockHist) gen() *blockOps {
 				eh = 1
 			}
 			et := h.ch.Now.Add(-time.Duration(age) * h.ch.Step0)
+			if h.cfg.EvidenceAges {
+				et = h.ch.Now.Add(-time.Duration(h.r.Intn(12)) * h.ch.Step0)
+			}
 			typ := abci.MisbehaviorType_DUPLICATE_VOTE
 			if h.r.Intn(3) == 0 {
 				typ = abci.MisbehaviorType_LIGHT_CLIENT_ATTACK
@@ -496,6 +514,9 @@ func (h *lockHist) step() bool {
 		return false
 	}
 	h.c.Count("blocks", 1)
+	if len(blk.Resp.ValidatorUpdates) > 0 {
+		h.logf("  -> validator updates %v (cometbft: %v)", c13Ups(blk), blk.VsetErr)
+	}
 	if !blk.BlockOK {
 		h.c.Count("blocks_with_failed_block_message", 1)
 		h.logf("block message failed: %s", blk.Resp.TxResults[0].Log)
